@@ -850,6 +850,23 @@ fn show_lvn_stmts(heap: &Heap, ss: &[Statement]) -> String {
           if inner.is_empty() { String::new() } else { format!("{inner} ") }
         ))
       }
+      Statement::IfElse { condition, s1, s2, final_assignments } => {
+        let (b1, b2) = (show_lvn_stmts(heap, s1), show_lvn_stmts(heap, s2));
+        let f = final_assignments
+          .iter()
+          .map(|fa| format!("{} {} {}", fa.name.as_str(heap), show_expr(heap, &fa.e1), show_expr(heap, &fa.e2)))
+          .collect::<Vec<_>>()
+          .join(" ");
+        let sp = |s: String| if s.is_empty() { s } else { format!("{s} ") };
+        out.push(format!(
+          "{{ {} {}| {}; {} {}}}",
+          show_expr(heap, condition),
+          sp(b1),
+          sp(b2),
+          final_assignments.len(),
+          sp(f)
+        ))
+      }
       _ => out.push("?".to_string()),
     }
   }
@@ -864,6 +881,28 @@ fn straight_line(heap: &mut Heap, t: &[&str]) -> Option<Vec<Statement>> {
     if t[i] == "k" && i + 1 < t.len() {
       body.push(Statement::Break(expr_of(heap, t[i + 1])?));
       i += 2;
+      continue;
+    }
+    if t[i] == "{" && i + 1 < t.len() {
+      let bar = (i..t.len()).find(|j| t[*j] == "|")?;
+      let semi = (bar..t.len()).find(|j| t[*j] == ";")?;
+      let close = (semi..t.len()).find(|j| t[*j] == "}")?;
+      let condition = expr_of(heap, t[i + 1])?;
+      let s1 = straight_line(heap, &t[i + 2..bar])?;
+      let s2 = straight_line(heap, &t[bar + 1..semi])?;
+      let n: usize = t[semi + 1].parse().ok()?;
+      if semi + 2 + 3 * n != close {
+        return None;
+      }
+      let mut final_assignments = Vec::new();
+      for k in 0..n {
+        let nm = expr_of(heap, t[semi + 2 + 3 * k])?.as_variable()?.name;
+        let e1 = expr_of(heap, t[semi + 3 + 3 * k])?;
+        let e2 = expr_of(heap, t[semi + 4 + 3 * k])?;
+        final_assignments.push(IfElseFinalAssignment { name: nm, type_: INT_32_TYPE, e1, e2 });
+      }
+      body.push(Statement::IfElse { condition, s1, s2, final_assignments });
+      i = close + 1;
       continue;
     }
     if t[i] == "[" && i + 2 < t.len() {
@@ -1032,6 +1071,67 @@ fn kernel_line(t: &[&str]) -> String {
         _ => "unexpected-shape".to_string(),
       }
     }
+    "inl" if t.len() >= 3 => {
+      // `inl NP arg*NP RET <callee body>`: f0(v00, v01) { v90 = f1(args); return v90 } through the real inliner
+      let mut heap = Heap::new();
+      let np: usize = match t[1].parse() {
+        Ok(n) if n <= 4 && t.len() >= 3 + n => n,
+        _ => return "bad-line".to_string(),
+      };
+      let mut arguments = Vec::new();
+      for a in &t[2..2 + np] {
+        match expr_of(&mut heap, a) {
+          Some(e) => arguments.push(e),
+          None => return "bad-line".to_string(),
+        }
+      }
+      let ret = match expr_of(&mut heap, t[2 + np]) {
+        Some(e) => e,
+        None => return "bad-line".to_string(),
+      };
+      let body = match straight_line(&mut heap, &t[3 + np..]) {
+        Some(b) => b,
+        None => return "bad-line".to_string(),
+      };
+      let f1_name = FunctionName { type_name: TypeNameId::EMPTY, fn_name: name(&mut heap, "f1") };
+      let f1 = Function {
+        name: f1_name,
+        parameters: (0..np).map(|i| name(&mut heap, &format!("v{i:02}"))).collect(),
+        type_: Type::new_fn_unwrapped(vec![INT_32_TYPE; np], INT_32_TYPE),
+        body,
+        return_value: ret,
+      };
+      let v90 = name(&mut heap, "v90");
+      let f0 = Function {
+        name: FunctionName { type_name: TypeNameId::EMPTY, fn_name: name(&mut heap, "f0") },
+        parameters: vec![name(&mut heap, "v00"), name(&mut heap, "v01")],
+        type_: Type::new_fn_unwrapped(vec![INT_32_TYPE; 2], INT_32_TYPE),
+        body: vec![Statement::Call {
+          callee: Callee::FunctionName(FunctionNameExpression {
+            name: f1_name,
+            type_: Type::new_fn_unwrapped(vec![INT_32_TYPE; np], INT_32_TYPE),
+          }),
+          arguments,
+          return_type: INT_32_TYPE,
+          return_collector: Some(v90),
+        }],
+        return_value: Expression::var_name(v90, INT_32_TYPE),
+      };
+      let out = verif_hooks::run_pass_sources("inline", &mut heap, sources_of(vec![f0, f1])).expect("known pass");
+      let f0 = out.functions.iter().find(|f| f.name.fn_name.as_str(&heap) == "f0").expect("f0 stays");
+      // mangled names are `<temporary prefix _tN><name>`: print them as `m:<name>`
+      show_lvn_stmts(&heap, &f0.body)
+        .split(' ')
+        .map(|tok| {
+          if let Some(rest) = tok.strip_prefix("_t") {
+            format!("m:{}", rest.trim_start_matches(|c: char| c.is_ascii_digit()))
+          } else {
+            tok.to_string()
+          }
+        })
+        .collect::<Vec<_>>()
+        .join(" ")
+    }
     "cse" => {
       // `cse <block1> / <block2>`: real common_subexpression_elimination on `if v00 {block1} {block2}`
       let mut heap = Heap::new();
@@ -1070,6 +1170,70 @@ fn kernel_line(t: &[&str]) -> String {
       hoisted.sort();
       hoisted.dedup();
       format!("hoisted {}", if hoisted.is_empty() { "-".to_string() } else { hoisted.join(",") })
+    }
+    "lvnw" => {
+      // `lvnw <prefix> ~ N (name init loopvalue)*N | <body>` through the real local_value_numbering
+      let mut heap = Heap::new();
+      let (ti, bar) = match (t.iter().position(|x| *x == "~"), t.iter().position(|x| *x == "|")) {
+        (Some(a), Some(b)) if a < b => (a, b),
+        _ => return "bad-line".to_string(),
+      };
+      let n: usize = match t.get(ti + 1).and_then(|x| x.parse().ok()) {
+        Some(n) if bar == ti + 2 + 3 * n => n,
+        _ => return "bad-line".to_string(),
+      };
+      let mut stmts = match straight_line(&mut heap, &t[1..ti]) {
+        Some(b) => b,
+        None => return "bad-line".to_string(),
+      };
+      let npre = stmts.len();
+      let mut loop_variables = Vec::new();
+      for k in 0..n {
+        match (expr_of(&mut heap, t[ti + 2 + 3 * k]), expr_of(&mut heap, t[ti + 3 + 3 * k]), expr_of(&mut heap, t[ti + 4 + 3 * k])) {
+          (Some(Expression::Variable(v)), Some(a), Some(b)) => loop_variables.push(GenenalLoopVariable {
+            name: v.name,
+            type_: INT_32_TYPE,
+            initial_value: a,
+            loop_value: b,
+          }),
+          _ => return "bad-line".to_string(),
+        }
+      }
+      let body = match straight_line(&mut heap, &t[bar + 1..]) {
+        Some(b) => b,
+        None => return "bad-line".to_string(),
+      };
+      let r = name(&mut heap, "r");
+      stmts.push(Statement::While {
+        loop_variables,
+        statements: body,
+        break_collector: Some(VariableName { name: r, type_: INT_32_TYPE }),
+      });
+      let _ = npre;
+      let mut f = Function {
+        name: FunctionName { type_name: TypeNameId::EMPTY, fn_name: name(&mut heap, "f0") },
+        parameters: vec![name(&mut heap, "v00"), name(&mut heap, "v01")],
+        type_: Type::new_fn_unwrapped(vec![INT_32_TYPE; 2], INT_32_TYPE),
+        body: stmts,
+        return_value: Expression::var_name(r, INT_32_TYPE),
+      };
+      let counter = heap.create_temp_counter();
+      verif_hooks::run_pass("lvn", &mut f, &counter, &config(31));
+      let k = f.body.len() - 1;
+      let pre = show_lvn_stmts(&heap, &f.body[..k]);
+      match &f.body[k] {
+        Statement::While { loop_variables, statements, .. } => {
+          let lv = loop_variables
+            .iter()
+            .map(|v| format!("{} {} {}", v.name.as_str(&heap), show_expr(&heap, &v.initial_value), show_expr(&heap, &v.loop_value)))
+            .collect::<Vec<_>>()
+            .join(" ");
+          let b = show_lvn_stmts(&heap, statements);
+          let sp = |s: String| if s.is_empty() { s } else { format!("{s} ") };
+          format!("{}~ {} {}|{}", sp(pre), loop_variables.len(), sp(lv), if b.is_empty() { b } else { format!(" {b}") })
+        }
+        _ => "unexpected-shape".to_string(),
+      }
     }
     "licm" => {
       // the block is the body of `while (v00 = 0) { …; v99 = v00 + 1 }` (v01 is a parameter)
